@@ -25,8 +25,21 @@ class Tags:
         return self.n
 
 
+# members a call may carry besides the ones the protocol knows (the decoder passes them over): the empty
+# name, names next to the flags', non-ASCII names, values of every JSON kind
+EXTRA_MEMBERS = [("", 0), ("", {"a": [1, None]}), ("x", None), ("Method", "org.zv.Nope"), ("more ", True),
+                 ("\u00e9", [True]), ("o", "neway"), ("m", 1.5), ("u", {}), ("onewa", False), ("upgrades", True)]
+
+
+def pick_extra(rng, p=0.25):
+    """With probability p one or two unknown members (and where to put them)."""
+    if rng.random() >= p:
+        return None
+    return [(n, v, rng.randrange(0, 6)) for n, v in rng.sample(EXTRA_MEMBERS, rng.choice([1, 1, 2]))]
+
+
 def call(kind, c, t, v=0, oneway=False, more=False, shuffle=None, s="", raw_utf8=False, upgrade=False,
-         order=None):
+         order=None, extra=None):
     """Wire bytes (without terminator) of a valid call.  Each flag (oneway, more, upgrade): False = member
     absent, True = written as true, "false" = written out as false.  kind "Say" carries the string s, which
     the service echoes.  order: a permutation (list of member names) fixing the member positions; shuffle: an
@@ -46,6 +59,9 @@ def call(kind, c, t, v=0, oneway=False, more=False, shuffle=None, s="", raw_utf8
         items.sort(key=lambda kv: order.index(kv[0]) if kv[0] in order else len(order))
     if shuffle is not None:
         shuffle.shuffle(items)
+    for name, val, pos in (extra or []):
+        if name not in dict(items):
+            items.insert(min(pos, len(items)), (name, val))
     return json.dumps(dict(items), separators=(",", ":"), ensure_ascii=not raw_utf8).encode()
 
 
